@@ -57,15 +57,20 @@ type LoopRef struct {
 
 // Interp is the abstract interpreter.
 type Interp struct {
-	Collapsed map[string]*Term
-	InModule func(fn *ssa.Function) bool
-	Hooks    Hooks
-	MaxDepth int
-	Global   *Mem // contents of package-level variables after the init functions
-	Events   []*Event
-	Warn     []string
-	objs     map[string]*Object
-	frameSeq int
+	// MapLits: contents of maps built by package initialisers with constant keys (map literals), by object id;
+	// FrozenMaps: those that nothing outside the initialisers can change (decided by the caller, see rules.Ctx).
+	MapLits    map[string][]MapPair
+	FrozenMaps map[string]bool
+	mapDirty   map[string]bool
+	Collapsed  map[string]*Term
+	InModule   func(fn *ssa.Function) bool
+	Hooks      Hooks
+	MaxDepth   int
+	Global     *Mem // contents of package-level variables after the init functions
+	Events     []*Event
+	Warn       []string
+	objs       map[string]*Object
+	frameSeq   int
 	// InlineExt lists non-module functions (by ssa String()) that are inlined.
 	InlineExt map[string]bool
 	// Pure lists non-module functions without effects on their pointer arguments.
@@ -112,6 +117,9 @@ type Frame struct {
 	panics   int
 	in       *Interp
 }
+
+// MapPair is one key/value of a map literal.
+type MapPair struct{ Key, Val *Term }
 
 type headerJoin struct {
 	header int
@@ -1058,11 +1066,28 @@ func (fr *Frame) execBlock(blk *ssa.BasicBlock, mem *Mem) {
 			fr.set(x, Index(xv, iv, x.Type()))
 		case *ssa.Lookup:
 			a, k := fr.operand(x.X, mem), fr.operand(x.Index, mem)
-			if _, isMap := x.X.Type().Underlying().(*types.Map); isMap {
+			if mt, isMap := x.X.Type().Underlying().(*types.Map); isMap {
 				v := Op("lookup", "", x.Type(), a, k)
 				if x.CommaOk {
 					tt := x.Type().(*types.Tuple)
 					v = Tuple(Op("lookup", "", tt.At(0).Type(), a, k), Op("lookupok", "", tt.At(1).Type(), a, k))
+				}
+				// a package-level map literal that nothing can change after initialisation is a table: the lookup is a
+				// case distinction over its keys
+				if a != nil && a.Op == "ptr" && a.Obj != nil && in.FrozenMaps[a.Obj.ID] && len(in.MapLits[a.Obj.ID]) > 0 && len(in.MapLits[a.Obj.ID]) <= 64 && k != nil {
+					ps := in.MapLits[a.Obj.ID]
+					val := Zero(mt.Elem())
+					okT := False
+					for i := len(ps) - 1; i >= 0; i-- {
+						eq := Bin(token.EQL, k, ps[i].Key, types.Typ[types.Bool])
+						val = Ite(eq, ps[i].Val, val)
+						okT = Or(eq, okT)
+					}
+					if x.CommaOk {
+						v = Tuple(val, okT)
+					} else {
+						v = val
+					}
 				}
 				fr.set(x, v)
 			} else {
@@ -1098,7 +1123,31 @@ func (fr *Frame) execBlock(blk *ssa.BasicBlock, mem *Mem) {
 		case *ssa.Store:
 			in.storePtr(fr, x, mem, fr.operand(x.Addr, mem), fr.operand(x.Val, mem))
 		case *ssa.MapUpdate:
-			in.Emit(fr, "mapupdate", x, "", []*Term{fr.operand(x.Map, mem), fr.operand(x.Key, mem), fr.operand(x.Value, mem)}, nil)
+			mv, kv, vv := fr.operand(x.Map, mem), fr.operand(x.Key, mem), fr.operand(x.Value, mem)
+			if _, isInit := in.Hooks.(initHooks); isInit && mv != nil && mv.Op == "ptr" && mv.Obj != nil {
+				// a map literal of a package-level variable: unconditional updates with constant keys, in order
+				if in.MapLits == nil {
+					in.MapLits, in.mapDirty = map[string][]MapPair{}, map[string]bool{}
+				}
+				r := fr.reach[b]
+				if kv != nil && kv.IsConst() && vv != nil && r != nil && r.Key() == True.Key() && len(fr.loopPath(b)) == 0 && !in.mapDirty[mv.Obj.ID] {
+					ps := in.MapLits[mv.Obj.ID]
+					replaced := false
+					for i := range ps {
+						if Eq(ps[i].Key, kv) {
+							ps[i].Val, replaced = vv, true
+						}
+					}
+					if !replaced {
+						ps = append(ps, MapPair{kv, vv})
+					}
+					in.MapLits[mv.Obj.ID] = ps
+				} else {
+					in.mapDirty[mv.Obj.ID] = true
+					delete(in.MapLits, mv.Obj.ID)
+				}
+			}
+			in.Emit(fr, "mapupdate", x, "", []*Term{mv, kv, vv}, nil)
 		case *ssa.Call:
 			res, noret := in.call(fr, x, mem)
 			if noret {
@@ -1777,6 +1826,20 @@ func (in *Interp) builtin(fr *Frame, x *ssa.Call, b *ssa.Builtin, args []*Term, 
 		return nil
 	case "ssa:wrapnilchk":
 		return args[0]
+	case "min", "max":
+		// integers only: for floats the built-ins treat NaN and signed zeros specially
+		if bt, ok := x.Type().Underlying().(*types.Basic); ok && bt.Info()&types.IsInteger != 0 && len(args) >= 1 {
+			res := args[0]
+			for _, a := range args[1:] {
+				if b.Name() == "min" {
+					res = Ite(Bin(token.LSS, a, res, types.Typ[types.Bool]), a, res)
+				} else {
+					res = Ite(Bin(token.LSS, res, a, types.Typ[types.Bool]), a, res)
+				}
+			}
+			return res
+		}
+		return Op("call", b.Name(), x.Type(), args...)
 	case "delete":
 		in.Emit(fr, "mapdelete", x, "delete", args, nil)
 		return nil
